@@ -243,10 +243,12 @@ func polyGE0(p poly, nonneg func(ssa.Value) bool) bool {
 }
 
 // divForm classifies how a count is derived from a size by integer division:
-//   ceil     (a + K - 1) / K
-//   floor    a / K
-//   floor+1  a / K + 1        one too many whenever a is a multiple of K
-//   pred+1   (a - 1) / K + 1  equals ceil only for a >= 1 (gives 1 for a == 0)
+//
+//	ceil     (a + K - 1) / K
+//	floor    a / K
+//	floor+1  a / K + 1        one too many whenever a is a multiple of K
+//	pred+1   (a - 1) / K + 1  equals ceil only for a >= 1 (gives 1 for a == 0)
+//
 // num is the size a, den the divisor K (values, after widening conversions).
 type divKind int
 
